@@ -236,6 +236,42 @@ theorem pop_of_rendered (t seg : Str) (o1 : Str) (hn : normOriginal o1 = o1) (hn
     simp [hu, hune, hl, hr, SepOpt.char, he, hlen, htk, hnt]
     rfl
 
+/-- **pop() of a last segment that is not spelled the way it is printed** (repair 8d0a378).  `o1` is ANY
+path text (normal form) in notation `f` whose unescaped segments are `u`, ending in `last`.  When the
+library's rendering of `last` is not found at the end of the text — the three `endswith` tests of
+`pop()` fail: the segment is demarcated (`'d e'`), bracketed (`[&anc]`), padded (`[ 1 ]`, `[a = b]`) —
+`pop()` returns `last` and leaves the rendering of the OTHER segments, `render f u.dropLast`.  (Before
+the repair the text was left unchanged: the popped segment stayed in the path.) -/
+theorem pop_respelled (f : Bool) (o1 : Str) (hn : normOriginal o1 = o1)
+    (hs : inferSep o1 = if f then .fslash else .dot)
+    (u : List Seg) (last : Seg) (hu : parseWith f false o1 = .ok u) (hl : u.getLast? = some last)
+    (h1 : endsWith o1 (if f then render f [last] else '.' :: render f [last]) = false)
+    (h2 : endsWith o1 (render f [last]) = false)
+    (h3 : f = true → endsWith o1 ((render f [last]).drop 1) = false) :
+    popView (PathObj.new o1) = .ok (last, normOriginal (render f u.dropLast)) := by
+  cases f with
+  | false =>
+    simp only [Bool.false_eq_true, ↓reduceIte] at hs h1
+    simp only [popView, PathObj.pop, PathObj.unescaped, PathObj.new, PathObj.setOriginal, PathObj.parseObj,
+      PathObj.getSep, hn, hs, SepOpt.isFslash]
+    simp [hu, hl, SepOpt.char, h1, h2]
+    rfl
+  | true =>
+    simp only [↓reduceIte] at hs h1
+    have h3' := h3 rfl
+    rw [List.drop_one] at h3'
+    simp only [popView, PathObj.pop, PathObj.unescaped, PathObj.new, PathObj.setOriginal, PathObj.parseObj,
+      PathObj.getSep, hn, hs, SepOpt.isFslash]
+    simp [hu, hl, SepOpt.char, h1, h3']
+    rfl
+
+/-- … and what is left re-parses to exactly the other segments, in either target notation, whenever
+those are the unescaped form of a well-formed list `segs` written in notation `f0` (`keepEsc`) — for
+instance every canonical prefix, whatever the spelling of the popped segment. -/
+theorem pop_respelled_reparses (f0 f : Bool) (segs : List Seg) (hwf : wfSegs segs = true) :
+    parseWith f true (render f (segs.map (keepEsc (Sim.sepOf f0)))) = .ok segs :=
+  (Sim.render_roundtrip f0 f segs hwf).1
+
 /-- `append` on a non-empty path: the separator of the path's own notation and the segment text
 are added to the text (and every cache is dropped). -/
 theorem append_text (t seg : Str) (hnt : normOriginal t = t) (ht : t ≠ []) :
@@ -343,6 +379,25 @@ example : popView ((PathObj.new "(a)".toList).append "&(b)".toList)
 /-- append then pop on a concrete path (model): the segment comes back and the text is restored -/
 example : popView ((PathObj.new "a.b[1]".toList).append "c\\.d".toList)
     = .ok ((.key, .str "c\\.d".toList), "a.b[1]".toList) := by decide +kernel
+/-- `pop_respelled` is not vacuous and is what the repaired code does (finding C08-7, /repo 8d0a378): a
+demarcated key, a bracketed anchor, a padded index and a padded search appended and popped — the
+segment comes back and the other segments stay; in forward-slash notation too.  Before the repair
+each of these left the whole text in place. -/
+example : popView ((PathObj.new "abc.def".toList).append "'d e'".toList)
+    = .ok ((.key, .str "d e".toList), "abc.def".toList) := by decide +kernel
+example : popView ((PathObj.new "abc.def".toList).append "[&anc]".toList)
+    = .ok ((.anchor, .str "anc".toList), "abc.def".toList) := by decide +kernel
+example : popView ((PathObj.new "/abc/d\\/e".toList).append "[ 1 ]".toList)
+    = .ok ((.index, .int 1), "/abc/d\\/e".toList) := by decide +kernel
+example : popView ((PathObj.new "abc.'x y'".toList).append "[a = b]".toList)
+    = .ok ((.search, .search false .equals "a".toList "b".toList), "abc.x\\ y".toList) := by decide +kernel
+/-- the hypotheses of `pop_respelled` on the first of these -/
+example : normOriginal "abc.def.'d e'".toList = "abc.def.'d e'".toList ∧
+    inferSep "abc.def.'d e'".toList = .dot ∧
+    parseWith false false "abc.def.'d e'".toList =
+      .ok [(.key, .str "abc".toList), (.key, .str "def".toList), (.key, .str "d e".toList)] ∧
+    endsWith "abc.def.'d e'".toList ('.' :: render false [(.key, .str "d e".toList)]) = false ∧
+    endsWith "abc.def.'d e'".toList (render false [(.key, .str "d e".toList)]) = false := by decide +kernel
 /-- `eqModel` on the suspicion's input (after the repair): both have the single key `a.b` -/
 example : eqModel "a\\.b".toList "/a.b".toList = .ok true := by decide +kernel
 
